@@ -76,6 +76,9 @@ def projects(d: Path):
     ]
 
 
+MODIFIERS_ONLY = False      # set by c13_modifiers: only the projects that carry rate / ODE modifiers, only the init -> TOML -> render stages
+
+
 def tree_hash(d: Path):
     out = {}
     for sub in ("include", "src", "python"):
@@ -119,11 +122,17 @@ def main(ctx: Ctx) -> int:
     traces = []
     solvers = [("cvode", "dense"), ("cvode", "sparse"), ("odeint", "rosenbrock4")]
     nrun = 14 if ctx.quick else 84
+    if MODIFIERS_ONLY:
+        nrun = 6 if ctx.quick else 18
     for k in range(nrun):
         d = ctx.sub("proj") / str(k)
         d.mkdir()
-        base = projects(d)[k % 7]
-        solver, method = solvers[(k // 7) % 3]
+        if MODIFIERS_ONLY:
+            base = [b for b in projects(d) if b["rate_modifier"] or b["ode_modifier"]][k % 3]
+            solver, method = solvers[(k // 3) % 3]
+        else:
+            base = projects(d)[k % 7]
+            solver, method = solvers[(k // 7) % 3]
         # --- tokens with shapes
         ids: dict = {}
 
@@ -163,6 +172,16 @@ def main(ctx: Ctx) -> int:
             val = {"solver": solver, "device": "cpu", "method": method}.get(opt, base.get(opt, ""))
             req[opt] = [{"shape": "plain", "id": tid_of(opt, val)}]
             cli.append(f"--{cname}='{val}'" if val != "" else f"--{cname}=null")
+        # ODE modifiers as tokens: one per (species, position among that species' modifiers) = factor text and dependency list, repeats kept
+        def om_items(table: dict):
+            return {f"{sp}#{n_}": f"{str(f_).strip()}|{' '.join(dp_)}" for sp, ex in table.items()
+                    for n_, (f_, dp_) in enumerate(zip(list(ex.get("factors", [])), [list(x) for x in ex.get("reactants", [])]))}
+        om_req = {}
+        for kk, fact, deps in base["ode_modifier"]:
+            om_req.setdefault(kk, {"factors": [], "reactants": []})
+            om_req[kk]["factors"].append(fact)
+            om_req[kk]["reactants"].append(list(deps))
+        req["ode_modifier"] = [{"shape": "inner" if " " in v3 else "plain", "id": tid_of("ode_modifier", f"{k3}={v3}")} for k3, v3 in om_items(om_req).items()]
         oms = [f"{kk}:{fact},[{' '.join(deps)}]" for kk, fact, deps in base["ode_modifier"]]
         if len(oms) > 1 and (k // 7) % 2 == 1:
             # the option may be given several times, each value a ';'-separated list that may end with ';' (the form `naunet example` writes)
@@ -209,7 +228,7 @@ def main(ctx: Ctx) -> int:
             out = {}
             for opt in LIST_OPTS:
                 out[opt] = [{"shape": "inner" if " " in s else "plain", "id": ids.get(opt, {}).get(s, 99)} for s in values.get(opt, ["<missing>"])]
-            for opt in TABLE_OPTS:
+            for opt in list(TABLE_OPTS) + ["ode_modifier"]:
                 tab = values.get(opt, {"<missing>": ""})
                 out[opt] = [{"shape": "inner" if " " in str(v2) else "plain", "id": ids.get(opt, {}).get(f"{k2}={fmtv(v2)}", 99)} for k2, v2 in tab.items()]
             for opt in SCALARS:
@@ -230,6 +249,7 @@ def main(ctx: Ctx) -> int:
                   "formats": list(ch["network"]["formats"]), "heating": list(ch["thermal"]["heating"]), "cooling": list(ch["thermal"]["cooling"]),
                   "replacement": dict(ch["element"]["replacement"]), "binding": dict(ch["species"]["binding_energy"]),
                   "yield": dict(ch["species"]["photon_yield"]), "shielding": dict(ch["shielding"]), "rate_modifier": dict(ch["rate_modifier"]),
+                  "ode_modifier": om_items({k3: dict(v3) for k3, v3 in dict(ch["ode_modifier"]).items()}),
                   "surface": ch["symbol"]["surface"], "bulk": ch["symbol"]["bulk"], "grain": ch["symbol"]["grain"], "grain_model": ch["grain"]["model"],
                   "solver": conf["ODEsolver"]["solver"], "device": conf["ODEsolver"]["device"], "method": conf["ODEsolver"]["method"]}
             ev.append({"act": "Toml", "fields": decode(tv)})
@@ -250,6 +270,7 @@ def main(ctx: Ctx) -> int:
                       "yield": dict(base["yields"]) if all(float(v2) == chemistrydata.user_photon_yield.get(renamed(k2)) for k2, v2 in base["yields"]) else
                       dict(chemistrydata.user_photon_yield),
                       "shielding": dict(kw.get("shielding") or {}), "rate_modifier": {str(k2): v2 for k2, v2 in (kw.get("rate_modifier") or {}).items()},
+                      "ode_modifier": om_items({k3: dict(v3) for k3, v3 in dict(kw.get("ode_modifier") or {}).items()}),
                       "surface": sk.get("surface_prefix", "<missing>"), "bulk": sk.get("bulk_prefix", "<missing>"), "grain": sk.get("grain_symbol", "<missing>"),
                       "grain_model": kw.get("grain_model", "<missing>"), "solver": tl.get("solver", "<missing>"), "device": tl.get("device", "<missing>"),
                       "method": tl.get("method", "<missing>")}
@@ -311,7 +332,7 @@ def main(ctx: Ctx) -> int:
     from naunet.console.commands.example import ExampleCommand
     app.add(ExampleCommand())
     nex = 0
-    for sel, exname in ((0, "empty"), (4, "minimal"), (8, "primordial"), (12, "deuterium"), (16, "cloud"), (19, "ism")):
+    for sel, exname in () if MODIFIERS_ONLY else ((0, "empty"), (4, "minimal"), (8, "primordial"), (12, "deuterium"), (16, "cloud"), (19, "ism")):
         d = ctx.sub("example") / exname
         d.mkdir()
         os.chdir(d)
@@ -372,7 +393,8 @@ def main(ctx: Ctx) -> int:
     cov["samples"].append({"cli": traces[0]["cli"][:400], "events": [e["act"] for e in traces[0]["ev"]]})
     # histories of a project directory (Project.tla): init / hand edit / render [--force] / render --patch / second init
     import project_life
-    project_life.run(ctx, cov)
+    if not MODIFIERS_ONLY:
+        project_life.run(ctx, cov)
     cov["rule"] = "init+render runs over seven project kinds x three solver choices with padded / empty tokens in list options; non-trivial = every run"
     cov["exhaustive"] = False
     return finish(ctx, "model_checking", cov, [
